@@ -30,6 +30,17 @@
 //   hcall <x> ifield <V|N> obj|site <id>       ApplyInducedField<V|noE_V>
 //   hobs <probe site idx>  -> "o <x> pos(3) rank Q(9) getDipole(3) V(3) V_noE(3)" per object and
 //                             "e E(1,2) E(2,1) E(1,P) E(P,1) E(2,P) E(P,2)"  (CalcStaticEnergy_site on the objects themselves)
+//
+// Many-site operator (spec/multipole/DdiFamily.tla):
+//   ddim <damp> <N> <reps> <T> t1..tT  pos(3N) pol(N) x(3N) y(3N)
+//        N PolarSites (isotropic polarisability) in segments of 8; DipoleDipoleInteraction::multiply with
+//        omp_set_num_threads(1) is the reference; -> "ddim team <threads seen inside a parallel region>
+//        ref <max|op x|> thr <t> <max over reps of max|op_t x - ref|> ... dense <max|D x - ref|>
+//        sym <y.(op x)> <x.(op y)>"; D is assembled from FillTholeInteraction(site_i, site_j) for every
+//        ordered pair and getPInv() (plain matrix-vector sum of real outputs, no physics here)
+#include <omp.h>
+
+#include <algorithm>
 #include <cstdio>
 #include <iostream>
 #include <map>
@@ -411,6 +422,61 @@ int main() {
         std::cout << "e " << ee.CalcStaticEnergy_site(a, b) << " " << ee.CalcStaticEnergy_site(b, a) << " "
                   << ee.CalcStaticEnergy_site(a, P) << " " << ee.CalcStaticEnergy_site(P, a) << " "
                   << ee.CalcStaticEnergy_site(b, P) << " " << ee.CalcStaticEnergy_site(P, b) << std::endl;
+      } else if (cmd == "ddim") {
+        double damp;
+        int N, reps, T;
+        in >> damp >> N >> reps >> T;
+        std::vector<int> threads(T);
+        for (int& x : threads) in >> x;
+        std::vector<double> pos(3 * N), pol(N);
+        Eigen::VectorXd x(3 * N), y(3 * N);
+        for (double& v : pos) in >> v;
+        for (double& v : pol) in >> v;
+        for (int i = 0; i < 3 * N; ++i) in >> x[i];
+        for (int i = 0; i < 3 * N; ++i) in >> y[i];
+        if (!in) throw std::runtime_error("bad ddim line");
+        std::vector<PolarSegment> segs;
+        for (int i = 0; i < N; ++i) {
+          if (i % 8 == 0) segs.emplace_back("d", i / 8);
+          PolarSite ps(i, "C", Eigen::Vector3d(pos[3 * i], pos[3 * i + 1], pos[3 * i + 2]));
+          ps.setpolarization(pol[i] * Eigen::Matrix3d::Identity());
+          segs.back().push_back(ps);
+        }
+        eeInteractor ee(damp);
+        DipoleDipoleInteraction A(ee, segs);
+        omp_set_dynamic(0);
+        int team = 1;
+        omp_set_num_threads(*std::max_element(threads.begin(), threads.end()));
+#pragma omp parallel
+        {
+#pragma omp single
+          team = omp_get_num_threads();
+        }
+        omp_set_num_threads(1);
+        const Eigen::VectorXd ref = A.multiply(x);
+        const Eigen::VectorXd refy = A.multiply(y);
+        std::cout << "ddim team " << team << " ref " << ref.cwiseAbs().maxCoeff();
+        for (int tcount : threads) {
+          omp_set_num_threads(tcount);
+          double worst = 0;
+          for (int r = 0; r < reps; ++r) {
+            Eigen::VectorXd v = A.multiply(x);
+            worst = std::max(worst, (v - ref).cwiseAbs().maxCoeff());
+          }
+          std::cout << " thr " << tcount << " " << worst;
+        }
+        omp_set_num_threads(1);
+        std::vector<const PolarSite*> all;
+        for (const PolarSegment& s : segs)
+          for (const PolarSite& ps : s) all.push_back(&ps);
+        Eigen::VectorXd dense = Eigen::VectorXd::Zero(3 * N);
+        for (int i = 0; i < N; ++i)
+          for (int j = 0; j < N; ++j) {
+            if (i == j) dense.segment<3>(3 * i) += all[i]->getPInv() * x.segment<3>(3 * i);
+            else dense.segment<3>(3 * i) += ee.FillTholeInteraction(*all[i], *all[j]) * x.segment<3>(3 * j);
+          }
+        std::cout << " dense " << (dense - ref).cwiseAbs().maxCoeff() << " sym " << y.dot(ref) << " " << x.dot(refy)
+                  << std::endl;
       } else if (cmd.empty()) {
         std::cout << "ok" << std::endl;
       } else {
